@@ -954,8 +954,8 @@ func c21(c *Ctx) {
 	for done := 0; done < nG; done += batchSize {
 		var items []*c21Item
 		for k := 0; k < batchSize && done+k < nG; k++ {
-			if k%5 == 1 || k%5 == 3 {
-				// two of five grammars come from the hand-shaped families (c21fam.go), in rotation
+			if k%5 == 1 || k%5 == 3 || k%5 == 4 {
+				// three of five grammars come from the hand-shaped families (c21fam.go), in rotation
 				for tries := 0; tries < 20; tries++ {
 					name := fmt.Sprintf("t%d", done+k)
 					o := &c21Opts{Comment: c.Rng.Intn(3) == 0}
@@ -971,10 +971,10 @@ func c21(c *Ctx) {
 						continue
 					}
 					c.Count("family " + fam)
-					famN++
 					items = append(items, &c21Item{g: c21Gram(gp), gp: gp, t: newC21Types(gp), o: o})
 					break
 				}
+				famN++ // next family, also when this one produced nothing (e.g. every variant rejected)
 				continue
 			}
 			var g *Gram
@@ -1124,10 +1124,15 @@ func c21RunBatch(c *Ctx, items []*c21Item) {
 	var reqs []astReq
 	var metas []*c21Item
 	for _, it := range items {
-		start := it.g.Inputs[0].Sym
-		for _, w := range c21Sentences(c.Rng, it.g, start, 6, 300, 40) {
-			reqs = append(reqs, astReq{Parser: it.gp.Name, Text: c21Text(c.Rng, it.gp, w, it.o.Comment, it.o.FileNode)})
-			metas = append(metas, it)
+		// every user input of the grammar is an entry point (ast.Parse for the first, Parse<Input> for the others)
+		for idx, in := range it.g.Inputs {
+			if idx > 0 {
+				c.Count("trees parsed through a further input")
+			}
+			for _, w := range c21Sentences(c.Rng, it.g, in.Sym, 6, 300, 40) {
+				reqs = append(reqs, astReq{Parser: it.gp.Name, Text: c21Text(c.Rng, it.gp, w, it.o.Comment, it.o.FileNode), Input: idx})
+				metas = append(metas, it)
+			}
 		}
 	}
 	outs := b.Run(reqs)
@@ -1155,7 +1160,7 @@ func c21RunBatch(c *Ctx, items []*c21Item) {
 			viol, ans := it.t.judgeNode(n)
 			if len(viol) > 0 && !violated[it] {
 				violated[it] = true
-				c.Violate(viol[0], fmt.Sprintf("input %q, node %s[%d,%d) with children (%s); grammar:\n%s\ntypes: %s", text, it.t.typeName(n.typ), n.off, n.end, it.t.kidNames(n), it.gp.TM, it.t.descriptors()))
+				c.Violate(viol[0], fmt.Sprintf("input %q%s, node %s[%d,%d) with children (%s); grammar:\n%s\ntypes: %s", text, c21Entry(it, reqs[i].Input), it.t.typeName(n.typ), n.off, n.end, it.t.kidNames(n), it.gp.TM, it.t.descriptors()))
 			}
 			if n.typ < 1 || n.typ > len(it.t.types.RangeTypes) {
 				continue
@@ -1211,6 +1216,13 @@ func c21RunBatch(c *Ctx, items []*c21Item) {
 	}
 }
 
+func c21Entry(it *c21Item, idx int) string {
+	if idx == 0 {
+		return ""
+	}
+	return fmt.Sprintf(" parsed through input #%d (%s)", idx, it.gp.G.Syms[it.g.Inputs[idx].Sym].Name)
+}
+
 func (t *c21Types) kidNames(n *c21Node) string {
 	var ks []string
 	for _, k := range n.kids {
@@ -1257,12 +1269,12 @@ func c21Debug(c *Ctx, file string) {
 	var reqs []astReq
 	if in := os.Getenv("TMH_C21_INPUTS"); in != "" {
 		for _, s := range strings.Split(in, "|") {
-			reqs = append(reqs, astReq{"dbg", s})
+			reqs = append(reqs, astReq{Parser: "dbg", Text: s})
 		}
 	} else {
 		g := c21Gram(gp)
 		for _, w := range c21Sentences(c.Rng, g, g.Inputs[0].Sym, 5, 60, 10) {
-			reqs = append(reqs, astReq{"dbg", c21Text(c.Rng, gp, w, false, false)})
+			reqs = append(reqs, astReq{Parser: "dbg", Text: c21Text(c.Rng, gp, w, false, false)})
 		}
 	}
 	outs := ab.Run(reqs)
